@@ -12,7 +12,7 @@
    [at_text data p txt]: p is such a position and the input continues there with txt. *)
 From Verif.Base Require Import Bytes.
 From Verif.Module Require Import Path.
-From Verif.Modfile Require Import Syntax Lex Parse Directives ModulePath ProofsLex ProofsParse ProofsDirectives LaxRetract LaxStrict LaxIgnore.
+From Verif.Modfile Require Import Syntax Lex Parse Directives ModulePath ProofsLex ProofsParse ProofsDirectives LaxRetract LaxStrict LaxIgnore ModulePathProofs ModulePathProofsTree.
 
 (* the model never runs out of its recursion budget *)
 Theorem C20_parse_fuel_enough : forall data, parse data <> POutOfFuel.
@@ -190,14 +190,69 @@ Proof.
   split; [vm_compute; reflexivity|]. split; [vm_compute; reflexivity|]. split; reflexivity.
 Qed.
 
-(* modulepath_agrees: stated, NOT proved in Coq; decided by the Go oracle
-   "modulepath-agrees-with-strict" and by the correspondence of ModulePath with the model.
+(* modulepath_agrees.  ModulePath(data) scans the physical lines of data (the pieces between
+   LF bytes): [module_path_line ln] is the body of its loop for one line ln — cut ln at the
+   first "//", TrimSpace, and unless the rest is "module", Unicode white space, and something
+   else, the result is None ("continue"); otherwise Some of the rest (unquoted if it starts
+   with a double or back quote, "" if that fails).  [module_path data] returns the first Some.
 
-     modulepath_agrees : parse_to_file true fix data = DOk f -> fd_module f = Some m ->
-       snd (md_syntax m) = None (single line) -> check_import_path (path m) = None ->
-       no earlier line's first token is "module" -> module_path data = path m.
+   Positive direction: if Parse (strict, any fixer) accepts data, its module directive is a
+   single Line l (not a line of a block) naming a valid import path, and ModulePath's loop
+   skips every physical line before the line on which l starts
+       forall k < l.Start.Line - 1,  module_path_line (k-th physical line) = None,
+   then ModulePath(data) = f.Module.Mod.Path.  ([l] is the Line f.Module.Syntax points to,
+   looked up in f.Syntax; the directive layer rewrites tokens, never Start.)
+   The proof (Modfile/ModulePathProofs*.v) locates the tokens "module" and its argument in
+   the input: the line is  ws* module ws+ arg ws* ( "//"... | LF | EOF )  with ws in
+   {space, tab, CR}; it covers quoted arguments ("..." is unquoted by both; a back-quoted or
+   single-quoted argument is rejected by the strict parser), trailing comments, CR LF, tabs,
+   and uses the validity of the path exactly where it is needed: a quoted path containing
+   "//" (invalid: empty element) would be cut by ModulePath, and  module(  or  module[
+   (no white space after the verb; paths "(" "[" are invalid) would be skipped.
 
-   Without the last hypothesis the statement is false (finding K1): *)
+   The hypothesis on the earlier lines cannot be weakened to "the module directive is the
+   first statement whose verb is module": finding K1 below. *)
+Theorem C20_modulepath_agrees : forall (fx : fixer) data f m l,
+  parse_to_file true fx data = DOk f ->
+  fd_module f = Some m ->
+  snd (md_syntax m) = None ->                                   (* a Line, not a line of a block *)
+  get_line (fd_syntax f) (md_syntax m) = Some l ->               (* f.Module.Syntax *)
+  check_import_path (mv_path (md_mod m)) = None ->               (* module.CheckImportPath = nil *)
+  (forall k, Z.of_nat k < p_line (l_start l) - 1 ->
+             module_path_line (nth k (split_on 10 data) []) = None) ->
+  module_path data = mv_path (md_mod m).
+Proof. exact modulepath_agrees_file. Qed.
+Print Assumptions C20_modulepath_agrees.
+
+(* non-vacuity: a comment mentioning "module x", a go line, then the module directive with
+   leading tab, quoted path, trailing comment and CR LF *)
+Example C20_modulepath_agrees_example :
+  let data := B "// module x
+go 1.21
+	module ""example.com/m"" // the path
+retract v1.0.0
+" in
+  exists f m l,
+    parse_to_file true None data = DOk f /\ fd_module f = Some m /\
+    snd (md_syntax m) = None /\ get_line (fd_syntax f) (md_syntax m) = Some l /\
+    check_import_path (mv_path (md_mod m)) = None /\ p_line (l_start l) = 3 /\
+    (forall k, Z.of_nat k < p_line (l_start l) - 1 ->
+               module_path_line (nth k (split_on 10 data) []) = None) /\
+    module_path data = B "example.com/m".
+Proof.
+  cbv zeta. eexists. eexists. eexists.
+  split; [vm_compute; reflexivity|].
+  split; [reflexivity|]. split; [reflexivity|]. split; [vm_compute; reflexivity|].
+  split; [vm_compute; reflexivity|]. split; [reflexivity|]. split.
+  - intros k Hk. cbn [l_start p_line] in Hk.
+    destruct k as [|[|k]]; [vm_compute; reflexivity|vm_compute; reflexivity|lia].
+  - vm_compute. reflexivity.
+Qed.
+
+(* Without the hypothesis on the earlier lines the statement is false (finding K1): the
+   strict parser accepts the witness, its module directive is a single line naming a valid
+   import path, and ModulePath returns "v1.0.0", the argument of a line "module v1.0.0"
+   inside an earlier require block. *)
 Theorem C20_modulepath_agrees_refuted :
   exists data f m,
     parse_to_file true None data = DOk f /\ fd_module f = Some m /\
